@@ -92,11 +92,14 @@ impl OpView for MapOperation<Bytes, BytesMut> { spec fn opv(&self) -> MapOperati
 struct MapOperationQueue { _p: core::marker::PhantomData<u8> }
 impl MapOperationQueue {
     uninterp spec fn ops(&self) -> Seq<MapOperation<Seq<u8>, Seq<u8>>>;
-    // the effect of pushing an operation on the pending sequence (coalescing by key); proved shape in unit map_queue
-    uninterp spec fn coalesce(ops: Seq<MapOperation<Seq<u8>, Seq<u8>>>, op: MapOperation<Seq<u8>, Seq<u8>>) -> Seq<MapOperation<Seq<u8>, Seq<u8>>>;
+    // `after` is `before` with `op` pushed (coalescing by key). A RELATION, not a function: which of two equivalent key
+    // texts the real queue keeps depends on buffer capacities. What the relation means is proved for the real queue in unit
+    // `map_queue` (over keys identified up to Recon equality): after == coalesce(before, op), and replaying `after` gives the
+    // same map as replaying `before` and then `op`. Nothing in this unit depends on its definition.
+    uninterp spec fn coalesced(before: Seq<MapOperation<Seq<u8>, Seq<u8>>>, op: MapOperation<Seq<u8>, Seq<u8>>, after: Seq<MapOperation<Seq<u8>, Seq<u8>>>) -> bool;
     #[verifier::external_body]
     fn push(&mut self, operation: MapOperation<BytesMut, BytesMut>) -> (r: Result<(), InvalidKey>)
-        ensures r is Ok ==> final(self).ops() == Self::coalesce(old(self).ops(), op_view_mm(operation)) && final(self).ops().len() > 0,
+        ensures r is Ok ==> Self::coalesced(old(self).ops(), op_view_mm(operation), final(self).ops()) && final(self).ops().len() > 0,
                 r is Err ==> final(self).ops() == old(self).ops(),
     { unimplemented!() }
     #[verifier::external_body]
